@@ -310,8 +310,10 @@ def csv_render(plan, sp):
     r = Rng(sp.get("sseed", 0), "csvblank")
     lines = []
     for pr in plan:
-        if sp.get("blanks") and r.chance(0.25):
+        if sp.get("blanks") and r.chance(0.3):
             lines.append("")
+            if r.chance(0.3):
+                lines.append("")
         out = []
         for q, s in pr:
             if q or any(ch in s for ch in (d, '"', "\n", "\r")):
@@ -376,6 +378,8 @@ def write_svm(rows, sp, manik=False):
         if sp.get("trail_ws") and r.chance(0.3):
             line += r.choice([" ", "  "])
         lines.append(line)
+    if sp.get("blanks") and r.chance(0.5):
+        lines.append("")
     return lines
 
 
@@ -473,11 +477,27 @@ def run_disk(writes, gz, batch, name="f"):
         shutil.rmtree(d, ignore_errors=True)
 
 
+def keepends(lines, via):
+    """the lines as an open file / `text.splitlines(keepends=True)` hands them over: every line still carries its
+    terminator ('\\n', '\\r\\n' or a per-line mix), a blank line is '\\n' or '\\r\\n', the last line may lack one"""
+    le = via.get("le", "\n")
+    out = []
+    for i, l in enumerate(lines):
+        t = Rng(via.get("tseed", 0), "term", i).choice(["\n", "\r\n"]) if le == "mix" else le
+        if i == len(lines) - 1 and not via.get("final_nl", True):
+            t = ""
+        out.append(l + t)
+    return out
+
+
 def deliver(lines, via):
     """lines -> lines through a delivery path of coba. Returns (result, expected_lines)"""
     mode = via.get("mode", "lines")
     if mode == "lines":
         return {"ok": list(lines)}, list(lines)
+    if mode == "keepends":          # no delivery layer of coba involved: the reader itself gets terminated lines
+        k = keepends(lines, via)
+        return {"ok": k}, k
     if mode == "disk":
         r = run_disk([list(lines)], via.get("gz", False), via.get("batch"))
         r.pop("raw", None)
@@ -766,6 +786,8 @@ def arff_features(case):
                       (lambda k=k: dict(case, sp={kk: vv for kk, vv in sp.items() if kk != k}))))
     if sp.get("style", "weka") != "weka":
         feats.append(("sp-style=" + sp["style"], True, lambda: dict(case, sp=dict(sp, style="weka"))))
+    if (case.get("via") or {}).get("mode") == "keepends":
+        feats.append(("via-keepends", True, lambda: dict(case, via={"mode": "lines"})))
     return feats
 
 
@@ -827,6 +849,9 @@ def arff_compare(case, got):
 
 def arff_fail(case):
     lines = arff_lines(case)
+    via = case.get("via") or {}
+    if via.get("mode") == "keepends":
+        lines = keepends(lines, via)
     return arff_compare(case, run_arff(lines, case["dense"]))
 
 
@@ -958,8 +983,10 @@ def gen_arff_sp(rng, canonical_p=0.45):
 
 def gen_via(rng, allow_http=True):
     r = rng.below(10)
-    if r < 5 or not allow_http:
+    if r < 4 or not allow_http:
         return {"mode": "lines"}
+    if r < 6:
+        return {"mode": "keepends", "le": rng.choice(["\n", "\r\n", "mix"]), "final_nl": rng.chance(0.7), "tseed": rng.randint(0, 10 ** 6)}
     if r < 7:
         return {"mode": "disk", "gz": rng.chance(0.5), "batch": rng.choice([None, None, 1, 2, 3])}
     return {"mode": "http", "enc": rng.choice([None, "gzip", "deflate"]), "chunk": rng.choice([1, 2, 3, 5, 7, 16, 64, 1024]),
@@ -1061,7 +1088,7 @@ class C12(Property):
     def gen_csv(self, rng, tier):
         rows, header = gen_csv_table(rng)
         sp = {"sseed": rng.randint(0, 10 ** 6), "quoting": rng.choice(["minimal", "minimal", "all", "some", "nonnumeric"]),
-              "delimiter": rng.choice([",", ",", "\t", ";"]), "blanks": rng.chance(0.3), "quote_edges": rng.chance(0.3)}
+              "delimiter": rng.choice([",", ",", "\t", ";"]), "blanks": rng.chance(0.4), "quote_edges": rng.chance(0.3)}
         return {"kind": "csv", "rows": rows, "header": header, "sp": sp, "via": gen_via(rng), "src": rng.chance(0.25)}
 
     def gen_svm(self, rng, tier):
@@ -1126,6 +1153,19 @@ class C12(Property):
         for dense in (True, False):
             for sp in ({"sseed": 1, "style": "weka"}, {"sseed": 1, "style": "liac"}, {"sseed": 1, "style": "weka", "kw_case": "upper", "sep": "\t", "comments": True, "blanks": True}):
                 cs.append({"kind": "arff", "table": t, "dense": dense, "sp": sp, "via": {"mode": "lines"}})
+        for le in ("\n", "\r\n", "mix"):
+            for fin in (True, False):
+                kv = {"mode": "keepends", "le": le, "final_nl": fin, "tseed": 3}
+                cs.append({"kind": "csv", "rows": [["1", "a, b", " x "], ["2", 'say "hi"', ""], ["3", "", "z"]], "header": ["id", "name", "note"],
+                           "sp": dict(base, blanks=True, sseed=5), "via": kv})
+                cs.append({"kind": "csv", "rows": [["1", "2"], ["3", "4"]], "header": None, "sp": dict(base, blanks=True, sseed=11), "via": kv, "src": True})
+                cs.append({"kind": "svm", "rows": [{"labels": ["1", "2"], "feats": [[0, "1"], [3, "0.5"]]}, {"labels": ["a"], "feats": []}], "manik": False,
+                           "sp": {"sseed": 2, "blanks": True}, "via": kv})
+                cs.append({"kind": "svm", "rows": [{"labels": ["1"], "feats": [[1, "2"]]}, {"labels": ["0"], "feats": [[2, "3"]]}], "manik": True,
+                           "sp": {"sseed": 4, "blanks": True}, "via": kv})
+                for dense in (True, False):
+                    cs.append({"kind": "arff", "table": {"cols": t["cols"][:1] + t["cols"][2:3], "rows": [r[:1] + r[2:3] for r in t["rows"]]}, "dense": dense,
+                               "sp": {"sseed": 7, "style": "weka", "blanks": True, "comments": True}, "via": kv})
         one = {"cols": [{"name": "a", "type": "numeric"}], "rows": [["1"], [None]]}
         cs.append({"kind": "arff", "table": one, "dense": True, "sp": {"sseed": 1, "style": "weka"}, "via": {"mode": "lines"}})
         return cs
@@ -1286,6 +1326,8 @@ class C12(Property):
         plan = csv_plan(case["rows"], sp, case["header"])
         lines = csv_render(plan, sp)
         has_header = case["header"] is not None
+        if "" in lines:
+            tags.append("blank-lines" + (":kept-terminators" if case["via"]["mode"] == "keepends" else ""))
         got_lines, exp_lines = deliver(lines, case["via"])
         if got_lines != {"ok": exp_lines}:
             return self._delivery_failure(case, lines, got_lines, exp_lines, tags)
@@ -1330,9 +1372,9 @@ class C12(Property):
             wl = [uncps(l) for l in w["lines"]]
             if wl != [l for l in lines if l != ""]:
                 fails.append(F("A", "RFC 4180 writer of the spec %r differs from the harness writer %r" % (wl, lines), "A:csv-writer"))
-            if w["hyp"] and case["via"]["mode"] == "lines" and model["fix"] != expected:
+            if w["hyp"] and case["via"]["mode"] in ("lines", "keepends") and model["fix"] != expected:
                 fails.append(F("C", "model: csvReaderFix(write rows) != rows under the hypotheses: %r" % (model["fix"],), "C:csv_roundtrip"))
-            if w["hypcur"] and case["via"]["mode"] == "lines" and model["cur"] != expected:
+            if w["hypcur"] and case["via"]["mode"] in ("lines", "keepends") and model["cur"] != expected:
                 fails.append(F("C", "model: csvReaderCur(write rows) != rows under the hypotheses", "C:csv_roundtrip_partial"))
         return {"fails": fails, "nontrivial": len(case["rows"]) >= 1, "tags": tags, "impl": impl, "model": model}
 
@@ -1368,6 +1410,8 @@ class C12(Property):
     def eval_svm(self, case, driver):
         fails, tags = [], ["kind:" + ("manik" if case["manik"] else "libsvm"), "via:" + case["via"]["mode"]]
         lines = write_svm(case["rows"], case["sp"], case["manik"])
+        if "" in lines:
+            tags.append("blank-lines" + (":kept-terminators" if case["via"]["mode"] == "keepends" else ""))
         got_lines, exp_lines = deliver(lines, case["via"])
         if got_lines != {"ok": exp_lines}:
             return self._delivery_failure(case, lines, got_lines, exp_lines, tags)
@@ -1389,7 +1433,7 @@ class C12(Property):
                     model = {"err": "ValueError"}
             if impl != model:
                 fails.append(F("A", "LibsvmReader: implementation %r, model %r" % (impl, model), "A:svm"))
-            if case["via"]["mode"] == "lines" and model != expected:
+            if case["via"]["mode"] in ("lines", "keepends") and model != expected:
                 fails.append(F("C", "model: libsvmRead(write rows) != rows", "C:libsvm_roundtrip"))
         return {"fails": fails, "nontrivial": len(case["rows"]) >= 1, "tags": tags, "impl": impl, "model": model}
 
@@ -1406,6 +1450,8 @@ class C12(Property):
         for c in case["table"]["cols"]:
             tags.append("type:" + c["type"])
         lines = arff_lines(case)
+        if "" in lines:
+            tags.append("blank-lines" + (":kept-terminators" if case["via"]["mode"] == "keepends" else ""))
         got_lines, exp_lines = deliver(lines, case["via"])
         if got_lines != {"ok": exp_lines}:
             return self._delivery_failure(case, lines, got_lines, exp_lines, tags)
@@ -1413,7 +1459,7 @@ class C12(Property):
         res = arff_compare(case, impl)
         fails = []
         if res is not None:
-            base = dict(case, via={"mode": "lines"})
+            base = dict(case, via=case["via"] if case["via"]["mode"] == "keepends" else {"mode": "lines"})
             left, sym, types, red = arff_culprits(base, res[0])
             fam = arff_family(red, sym, left)
             sig = fam or "arff-%s:%s:%s" % ("dense" if dense else "sparse", sym, "+".join(left))
@@ -1422,7 +1468,7 @@ class C12(Property):
                            % (res[0], res[1], arff_lines(red), arff_fail(red), ", ".join(left) or "none"), sig))
         impl_out = impl if "err" in impl else {"rows": len(impl["ok"])}
         model = None
-        if driver is not None and dense and case["via"]["mode"] == "lines":
+        if driver is not None and dense and case["via"]["mode"] in ("lines", "keepends"):
             model = self._arff_dense_model(case, lines, driver, fails, tags)
         return {"fails": fails, "nontrivial": len(case["table"]["rows"]) >= 1, "tags": sorted(set(tags)), "impl": impl_out, "model": model}
 
